@@ -297,6 +297,31 @@ func mutationsOf(bi int, base []byte, tier string, r *RNG) []mutation {
 			}
 			ms = append(ms, mutation{Base: bi, Kind: "set", Sets: sets, Desc: fmt.Sprintf("every object ID moved up by %d (highest = %#x)", k, top)})
 		}
+		// … and only the signed (non-signature) objects moved, so that the highest ID a signature
+		// covers is the top one while the signature objects keep their numbers
+		var maxData uint32
+		var data []int
+		for _, o := range used {
+			if !(base[o] == 0x05 && base[o+1] == 0x40) {
+				data = append(data, o)
+				if id := binary.LittleEndian.Uint32(base[o+5:]); id > maxData {
+					maxData = id
+				}
+			}
+		}
+		for _, top := range []uint32{0xFFFFFFFF, 0xFFFFFFFE} {
+			if maxData == 0 || maxData >= top {
+				continue
+			}
+			k := top - maxData
+			var sets []setSpec
+			for _, o := range data {
+				b := make([]byte, 4)
+				binary.LittleEndian.PutUint32(b, binary.LittleEndian.Uint32(base[o+5:])+k)
+				sets = append(sets, setSpec{o + 5, b})
+			}
+			ms = append(ms, mutation{Base: bi, Kind: "set", Sets: sets, Desc: fmt.Sprintf("every non-signature object ID moved up by %d (highest signed object = %#x)", k, top)})
+		}
 	}
 	// … and descriptors likewise: a size with its padded size, at an offset inside the data section
 	for _, s := range slots {
@@ -559,6 +584,9 @@ func runShard(self, scratchDir string, basePaths []string, jobs []mutation, idxs
 		if hung {
 			what, key = "no result within 20 s (killed)", "C10:hang"
 		}
+		if os.Getenv("C10_DEBUG") != "" {
+			fmt.Fprintf(os.Stderr, "death: job %d (%s) %s %s\n", bad, jobs[bad].Desc, key, what)
+		}
 		mu.Lock()
 		*deaths = append(*deaths, hostileFinding{m: jobs[bad], key: key, what: what})
 		mu.Unlock()
@@ -640,7 +668,11 @@ func repoDir() string { return envOr("REPO", "/repo") }
 
 func decideHostile(prop, tier string, seed uint64, scratch, replays string) *Output {
 	t0 := time.Now()
-	getUniverse()
+	// the children verify with this process's keys: the generated and crafted images are signed by them
+	up := filepath.Join(scratch, "universe.json")
+	if err := getUniverse().save(up); err == nil {
+		os.Setenv("VERIF_UNIVERSE", up)
+	}
 	self, _ := os.Executable()
 	basePaths, baseNames := hostileBases(scratch, seed, tier)
 	cp, cn := craftedSignatureImages(scratch, seed, tier)
@@ -709,6 +741,13 @@ func decideHostile(prop, tier string, seed uint64, scratch, replays string) *Out
 	}
 	wg.Wait()
 	findings := deaths
+	if os.Getenv("C10_DEBUG") != "" {
+		for i, m := range jobs {
+			if strings.Contains(m.Desc, "non-signature") {
+				fmt.Fprintf(os.Stderr, "job %d base %s %s: result %+v\n", i, baseNames[m.Base], m.Desc, results[i])
+			}
+		}
+	}
 	var maxMs int64
 	var maxRatio float64
 	for i, res := range results {
